@@ -58,6 +58,8 @@ fn adversarial(r: &mut crate::rng::Rng) -> String {
         // the stack of suspended inputs belongs to one copy
         "|CC DD EE| open-bitstr", "close-bitstr", "u8 ! cnt", "offset ! cnt", "remain ! cnt", "|AA BB| open-bitstr u8 drop", "|01 02 03| open-bitstr u8 drop |04| open-bitstr", "close-bitstr close-bitstr",
         "input ! bs", "8 bits ! mid",
+        // words that fail half-way through a nested value (whatever they keep outside the interpreter must not leak)
+        "[ [ [ [ 300 ] ] ] ] >bitstr", "[ 1 [ 2 \"x\" nil ] ] >bitstr drop", "[ [ [ 256 ] ] ] base64", "[ [ -1 ] ] zero85", "[ 1 [ 2 3 ] ] >bitstr ! bs", "[ 10 20 30 ] 1 get ! cnt",
         // where a value starts inside its buffer must not show (open-bitstr takes `offset` from it)
         "mid |FF| bitstr-append open-bitstr offset ! cnt close-bitstr", "|FF| mid bitstr-append open-bitstr offset ! cnt close-bitstr",
         "mid |FF| swap bitstr-append open-bitstr offset remain + ! cnt close-bitstr", "half mid bitstr-append open-bitstr offset ! cnt u8 drop close-bitstr",
@@ -80,6 +82,42 @@ fn file_source(ctx: &mut Ctx) -> String {
     }
 }
 
+/// Every word of the dictionary on a freshly booted interpreter, after each of a few preloads: result, stack and
+/// captured output. The answers are a function of the source alone — the same at the start of this process and after
+/// everything the run has done to other interpreters (nothing an interpreter does may live outside it: no warn-once
+/// flag, no depth counter, no cache shared by all interpreters).
+fn sweep() -> Vec<(String, String)> {
+    const SKIP: &[&str] = &["random", "random-bits", "write-all", "read-all", "exec-piped", "include", "require"];
+    const PRELOADS: &[&str] = &["", "1", "1 2", "[ 1 [ 2 3 ] ]", "\"ab\" 1", "|A1 B2| 4", "[ 10 20 30 ] 1", "{ 1 2 } 1", "[ [ [ [ 300 ] ] ] ]",
+        "[ [ [ [ [ [ [ [ 1 \"s\" nil ] ] ] ] ] ] ] ]", "2.5 -1", "\"IFBEG===\"", "1 2 3"];
+    let words: Vec<String> = Xstate::boot().unwrap().word_list().iter().map(|w| w.to_string()).collect();
+    let mut out = Vec::new();
+    for w in &words {
+        if SKIP.contains(&w.as_str()) { continue; }
+        for p in PRELOADS {
+            let mut xs = Xstate::boot().unwrap();
+            xs.intercept_stdout(true);
+            let _ = xs.intercept_output(true);
+            let _ = xs.set_insn_limit(Some(2000));
+            let _ = xs.set_binary_input(Xbitstr::from(vec![0x41u8, 0x00, 0x7f, 0xf8, 0, 0, 0, 0, 0, 1]));
+            let _ = crate::guarded(|| xs.eval(p));
+            let src = format!("{} 7 8", w);
+            let r = crate::guarded(|| xs.eval(&src)).map(|r| r.map_err(|e| canon::err(&e)));
+            let stack: Vec<String> = (0..xs.data_depth()).map(|i| xs.get_data(i).map(canon::cell).unwrap_or_default()).collect();
+            let cap = xs.read_stdout().unwrap_or_default();
+            out.push((format!("`{}` then `{}`", p, src), format!("{:?} [{}] out={:?}", r, stack.join(","), cap)));
+        }
+    }
+    out
+}
+
+fn compare_sweeps(ctx: &mut Ctx, a: &[(String, String)], b: &[(String, String)], when: &str) {
+    for ((ka, va), (_, vb)) in a.iter().zip(b.iter()) {
+        ctx.check(va == vb, || format!("C03 fresh interpreter, {} — {}", ka, when), || va.clone(), || vb.clone());
+    }
+    ctx.tag("sweep-compared");
+}
+
 struct Copy_ {
     xs: Xstate,
     d2: bool,
@@ -88,6 +126,16 @@ struct Copy_ {
 
 pub fn run(ctx: &mut Ctx) {
     let cfg = GenCfg { endless: false, malformed_percent: 15, max_depth: 3, ..GenCfg::default() };
+    let sweep0 = sweep();
+    let sweep1 = sweep();
+    compare_sweeps(ctx, &sweep0, &sweep1, "first and second time in this process");
+    run_histories(ctx, &cfg);
+    let sweep2 = sweep();
+    compare_sweeps(ctx, &sweep0, &sweep2, "at the start of this process and after all its histories");
+}
+
+fn run_histories(ctx: &mut Ctx, cfg: &GenCfg) {
+    let cfg = cfg.clone();
     for _ in 0..ctx.n {
         let with_d2 = ctx.rng.chance(15);
         let mut base = Xstate::boot().unwrap();
@@ -235,10 +283,19 @@ pub fn run(ctx: &mut Ctx) {
             if let Some(Ok(())) = crate::guarded(|| o.compile(&prog)) {
                 for _ in 0..(ctx.rng.below(25) + 3) { if crate::guarded(|| o.next()).map(|r| r.is_err()).unwrap_or(true) { break; } }
                 let mut c = o.clone();
-                let back = ctx.rng.below(12) + 1;
                 let mut ok = true;
                 let mut detail = String::new();
+                // both go on for a few steps first (what is recorded after the snapshot is appended to a history the
+                // two share up to that point), then both step back through those steps and beyond the snapshot point
+                let fwd = ctx.rng.below(8);
+                for k in 0..fwd {
+                    let (r1, r2) = (crate::guarded(|| o.next()).map(|r| r.is_ok()), crate::guarded(|| c.next()).map(|r| r.is_ok()));
+                    let (d1, d2) = (snapshot(&mut o), snapshot(&mut c));
+                    if r1 != r2 || d1 != d2 { ok = false; detail = format!("after {} more forward steps: origin {:?} {} / snapshot {:?} {}", k + 1, r1, d1, r2, d2); break; }
+                }
+                let back = ctx.rng.below(12) + 1 + fwd;
                 for k in 0..back {
+                    if !ok { break; }
                     let (r1, r2) = (crate::guarded(|| o.rnext()).map(|r| r.is_ok()), crate::guarded(|| c.rnext()).map(|r| r.is_ok()));
                     let (d1, d2) = (snapshot(&mut o), snapshot(&mut c));
                     if r1 != r2 || d1 != d2 { ok = false; detail = format!("after {} reverse steps: origin {:?} {} / snapshot {:?} {}", k + 1, r1, d1, r2, d2); break; }
